@@ -102,7 +102,7 @@ Proof. intros; unfold kbit, pad; cbn [mask]. destruct (i <? 0); [reflexivity|]. 
 Lemma zero_extension : forall p n pc,
   opcode_at (pad p n) pc = opcode_at p pc /\ skip (pad p n) pc = skip p pc /\ decode (pad p n) pc = decode p pc.
 Proof.
-  intros. repeat split.
+  intros. split; [|split].
   - apply opcode_at_ext; intros; apply zeta_pad.
   - apply skip_ext; intros; apply kbit_pad.
   - apply decode_ext; intros; [apply zeta_pad|apply kbit_pad].
@@ -185,7 +185,8 @@ Proof.
   intros c p pc H Hc. pose proof (skip_le_24 p pc).
   destruct c; cbn [decode_cat vX no_args]; try discriminate; try (unfold W64; lia);
     try (apply imm_at_range; [assumption|lia]).
-  pose proof (le_read_range p 8 (pc + 2) H). cbn in H1. unfold W64. lia.
+  pose proof (le_read_range p 8 (pc + 2) H) as R.
+  change (2 ^ (8 * Z.of_nat 8)) with 18446744073709551616 in R. unfold W64. lia.
 Qed.
 
 Definition immY_cat (c : cat) : bool :=
